@@ -41,6 +41,7 @@ func ABIColType(t string) string {
 }
 
 type G struct {
+	refStops bool // depGraph may give a referenced integration an early stop
 	R *rand.Rand
 }
 
@@ -486,8 +487,12 @@ func GenC03(seed uint64) *Plan {
 	nd := g.between(1, 3)
 	for i := 0; i < nd; i++ {
 		start := uint64(g.between(1, sp.InitLen-1))
-		d := g.randomDecl(p, i, fmt.Sprintf("t_ig%d", i), start, 0, []int{25, 0})
-		g.hashedDecl(d)
+		d := g.randomDecl(p, i, fmt.Sprintf("t_ig%d", i), start, 0, []int{25, 15})
+		if d.Mode() != model.ModeTrace || g.chance(50) {
+			// (a trace declaration always needs the transaction index, which
+			// comes with full blocks: its data plan has the hashes as it stands)
+			g.hashedDecl(d)
+		}
 		p.Decls = append(p.Decls, d)
 	}
 	g.ensureEvents(p)
@@ -616,6 +621,16 @@ func GenC04(seed uint64) *Plan {
 		} else {
 			d = g.randomDecl(p, i, fmt.Sprintf("t_ig%d", i), start, 0, []int{25, 0})
 			d.Sources[0].Name = src.Name
+			if g.chance(25) {
+				// the table definition spells out the stamp and identity columns
+				// (no block entries for them: the fields that write them are the
+				// automatically required ones)
+				for _, idc := range []string{"ig_name", "src_name", "block_num", "tx_idx"} {
+					if g.chance(70) {
+						d.Table.Columns = append(d.Table.Columns, model.Col{Name: idc, Type: FieldType[idc]})
+					}
+				}
+			}
 			if first == nil {
 				first = d
 			}
